@@ -41,6 +41,7 @@ type Case struct {
 	Sep     string  `json:"sep"`              // "" = PathSep not given
 	MaxIdx  *int64  `json:"maxidx"`           // null = MaxIdx not given (documented default 1024)
 	NumKeys string  `json:"numkeys"`          // unset | off | on
+	Escape  bool    `json:"escape,omitempty"` // EscapePath(): a path written as [..] is one segment
 	Build   string  `json:"build"`            // map | imap | struct | set
 	Layout  string  `json:"layout,omitempty"` // label for the class histogram only
 }
@@ -58,6 +59,9 @@ func (c Case) opts() []ucfg.Option {
 		o = append(o, ucfg.EnableNumKeys(false))
 	case "on":
 		o = append(o, ucfg.EnableNumKeys(true))
+	}
+	if c.Escape {
+		o = append(o, ucfg.EscapePath())
 	}
 	return o
 }
@@ -128,7 +132,7 @@ func spellClass(e Entry, c Case) (cls string, form string, nontrivial bool) {
 		return "spelling contains the separator", "", false
 	}
 	v, ok := goInt(e.Spell)
-	single := c.Sep == "" || !strings.Contains(e.Key(), c.Sep)
+	single := c.Sep == "" || !strings.Contains(e.Key(), c.Sep) || (c.Escape && escapedPath.MatchString(e.Key()))
 	max := c.cap()
 	switch {
 	case !ok:
@@ -190,7 +194,7 @@ func runCase(c Case, r *runlog.R) error {
 		}
 		seen[k] = true
 		keys[i] = k
-		segs[i] = classify(k, c.Sep, max, numKeys)
+		segs[i] = classifyEsc(k, c.Sep, max, numKeys, c.Escape)
 		for _, s := range segs[i] {
 			// self-check of the model's literal reader against the standard library
 			v1, ok1 := goInt(s.name)
@@ -265,7 +269,7 @@ func runCase(c Case, r *runlog.R) error {
 	for i := range keys {
 		what[i] = describe(keys[i], segs[i])
 	}
-	expl := strings.Join(what, "; ") + fmt.Sprintf(" (MaxIdx=%d, numeric keys %s, sep %q, site %s)", max, c.NumKeys, c.Sep, c.Build)
+	expl := strings.Join(what, "; ") + fmt.Sprintf(" (MaxIdx=%d, numeric keys %s, EscapePath %v, sep %q, site %s)", max, c.NumKeys, c.Escape, c.Sep, c.Build)
 	if err != nil {
 		return fmt.Errorf("%s: the keys were not accepted: %v", expl, err)
 	}
@@ -403,6 +407,11 @@ func runCase(c Case, r *runlog.R) error {
 		r.Class("layout: " + c.Layout)
 	}
 	r.Class("numkeys: " + c.NumKeys)
+	r.ClassIf(c.Escape && numKeys, "escapepath: given, numeric keys on")
+	r.ClassIf(c.Escape && !numKeys, "escapepath: given, numeric keys not on")
+	for _, k := range keys {
+		r.ClassIf(c.Escape && escapedPath.MatchString(k), "escapepath: a key escaped with brackets (one segment)")
+	}
 	switch {
 	case c.MaxIdx == nil:
 		r.Class("maxidx: default")
@@ -484,6 +493,8 @@ var gridSpellings = []string{
 	"18446744073709551615", "18446744073709551616", "99999999999999999999", "0777777777777777777777", "01000000000000000000000",
 	// ordinary names and near misses
 	"a", "z", "1a", "a1", "0a", "true", "nil", "[0]", "[1]", "1,2", "0,", "$1", "${0}",
+	// bracketed texts: one segment under EscapePath
+	"[a.b]", "[0.1]", "[1.z]", "[]", "[0].[1]",
 }
 
 type layout struct {
@@ -523,8 +534,14 @@ func enumGrid(yield func(Case) bool) {
 		for _, lay := range gridLayouts {
 			for _, mi := range gridMaxIdx() {
 				for _, nk := range []string{"unset", "off", "on"} {
-					for _, build := range []string{"map", "struct", "set"} {
-						c := Case{Sep: lay.sep, MaxIdx: mi, NumKeys: nk, Build: build, Layout: lay.name}
+					for _, build := range []string{"map", "struct", "set", "map+escape", "struct+escape", "set+escape"} {
+						esc := strings.HasSuffix(build, "+escape")
+						build = strings.TrimSuffix(build, "+escape")
+						// EscapePath: in the quick tier only at the map site and for two caps
+						if esc && !runlog.Thorough() && (build != "map" || (mi != nil && *mi != 7)) {
+							continue
+						}
+						c := Case{Sep: lay.sep, MaxIdx: mi, NumKeys: nk, Escape: esc, Build: build, Layout: lay.name}
 						c.Entries = []Entry{{Pre: lay.pre, Spell: sp, Post: lay.post, Val: "v"}}
 						if lay.fillPre != "-" {
 							c.Entries = append(c.Entries,
@@ -543,7 +560,7 @@ func enumGrid(yield func(Case) bool) {
 
 var subGrid = runlog.Register(&runlog.Sub[Case]{
 	Name: "grid",
-	Rule: fmt.Sprintf("full product of %d key spellings (decimal, signs, -0, 0x/0X, 0o, 0b, leading zeros, underscores, cap-1/cap/cap+1 of every MaxIdx of the grid in several bases, +-2^63 neighbours, blanks, 1.0, 1e1, empty, non-ASCII digits, plain names) x 9 layouts (sole key / one of several keys with and without PathSep, first / middle / last dotted segment, with and without named siblings in the same node) x MaxIdx {not given, 0, 1, 7, 2000; thorough tier also 5000} x EnableNumKeys {not given, false, true} x write site {NewFrom(map), NewFrom(struct with the key as tag name), SetString by name}; every built config is read back through Unpack (map, list, struct with the same tag names), String, Has and Remove by name under the same options. Oracle: own base-0 literal reader + classification (index iff literal, 0<=v<=MaxIdx, numeric keys not enabled for a single-segment key) => expected stored tree, compared with the stored tree (verif hook), IsDict/IsArray/CountField/GetFields, Unpack and getters; no list longer than MaxIdx+1. Non-trivial: the spelling parses as an integer under base-0 rules and is not a plain decimal inside [0,MaxIdx], or lies within 1 of the cap. Discarded: struct site with an empty key or a comma, setter with an empty name, spellings equal to a sibling. Negative MaxIdx is not documented and not generated.", len(gridSpellings)),
+	Rule: fmt.Sprintf("full product of %d key spellings (decimal, signs, -0, 0x/0X, 0o, 0b, leading zeros, underscores, cap-1/cap/cap+1 of every MaxIdx of the grid in several bases, +-2^63 neighbours, blanks, 1.0, 1e1, empty, non-ASCII digits, plain names) x 9 layouts (sole key / one of several keys with and without PathSep, first / middle / last dotted segment, with and without named siblings in the same node) x MaxIdx {not given, 0, 1, 7, 2000; thorough tier also 5000} x EnableNumKeys {not given, false, true} x write site {NewFrom(map), NewFrom(struct with the key as tag name), SetString by name} x EscapePath {not given, given (quick tier: given only at the map site with MaxIdx not given or 7)}; every built config is read back through Unpack (map, list, struct with the same tag names), String, Has and Remove by name under the same options. Oracle: own base-0 literal reader + classification (index iff literal, 0<=v<=MaxIdx, numeric keys not enabled for a single-segment key; under EscapePath a key written as [..] is one segment, otherwise EscapePath changes nothing) => expected stored tree, compared with the stored tree (verif hook), IsDict/IsArray/CountField/GetFields, Unpack and getters; no list longer than MaxIdx+1. Non-trivial: the spelling parses as an integer under base-0 rules and is not a plain decimal inside [0,MaxIdx], or lies within 1 of the cap. Discarded: struct site with an empty key or a comma, setter with an empty name, spellings equal to a sibling. Negative MaxIdx is not documented and not generated.", len(gridSpellings)),
 	Enum: enumGrid,
 	Run:  runCase,
 })
